@@ -151,7 +151,9 @@ def prov(rep, cfg, facts):
     loc = c02.decode_summary(cfg, rep)
     pe = cfg.p_elligator(rep)
     pd = cfg.p_decode(rep)
-    coordinate_constructors = {pd, pe}
+    # the decoder and the Elligator map, together with private helpers that only they call (a routine split in two is still that routine:
+    # its results are what VALID / FUNNEL judge through the entry point)
+    coordinate_constructors = C.private_helpers_of(cfg.prog, {pd, pe})
     if cfg.name == "M":
         # the minimal backend funnels coordinate construction through Element::new / new_checked / from_affine
         coordinate_constructors |= {p for p in cfg.prog.bodies if re.match(r"min_curve::element::Element::(new|new_checked|from_affine)$", p)}
